@@ -31,6 +31,8 @@ pub enum DocOp {
     Field { name: String, value: String, kind: u8, x: f64, y: f64 },
     /// document outline: one item per title, pointing at page (index mod page count)
     Outline { titles: Vec<String> },
+    /// a polyline stroked with whatever stroke colour and width are current (no colour call)
+    StrokeOnly { pts: Vec<[f64; 2]> },
     /// text in an embedded TrueType font (the repository's own test-pdfs/Roboto-Regular.ttf):
     /// exercises font embedding, subsetting, widths and the ToUnicode CMap
     CustomText { size: f64, x: f64, y: f64, text: String },
@@ -137,6 +139,18 @@ pub struct GenProgOpts {
     pub tricky_names: bool,
 }
 
+/// 100-260 tiny pages appended to a program (so that the writer needs more than one object stream,
+/// more than 255 objects, a deeper page list …).
+pub fn add_many_pages(r: &mut Rng, p: &mut Program) {
+    let n = 100 + r.usize_below(161);
+    for i in 0..n {
+        p.ops.push(DocOp::NewPage { w: 200.0, h: 100.0 + (i % 7) as f64, rotation: if i % 11 == 0 { 90 } else { 0 } });
+        if i % 3 == 0 {
+            p.ops.push(DocOp::Text { font: (i % 12) as u8, size: 10.0, x: 10.0, y: 20.0, text: format!("page {}", i) });
+        }
+    }
+}
+
 /// Bytes of the TrueType font used by `DocOp::CustomText` (read from the repository under test).
 pub fn custom_font_bytes() -> Option<Vec<u8>> {
     let repo = std::env::var("VERIF_REPO").unwrap_or_else(|_| "/repo".into());
@@ -198,13 +212,20 @@ pub fn gen_program(r: &mut Rng, o: &GenProgOpts) -> Program {
     let pages = 1 + r.usize_below(o.max_pages);
     let mut img_n = 0;
     let mut rich_n = 0;
+    let mut last_img: Option<(u32, u32, bool)> = None;
     for _ in 0..pages {
         let (w, h) = *r.pick(&[(595.0, 842.0), (612.0, 792.0), (842.0, 595.0), (300.0, 300.0), (612.0, 1008.0), (100.5, 200.25)]);
         ops.push(DocOp::NewPage { w, h, rotation: *r.pick(&[0, 0, 0, 90, 180, 270]) });
         let n = r.usize_below(8);
+        // image resource names are unique per page but deliberately repeat across pages
+        img_n = 0;
         for _ in 0..n {
             let x = r2(r.below(w as u64) as f64 + 0.5);
             let y = r2(r.below(h as u64) as f64 + 0.25);
+            if r.chance(1, 6) {
+                let k = 2 + r.usize_below(3);
+                ops.push(DocOp::StrokeOnly { pts: (0..k).map(|_| [r2(r.below(w as u64) as f64), r2(r.below(h as u64) as f64)]).collect() });
+            }
             let op = match r.below(if o.images { 9 } else { 8 }) {
                 0..=2 => DocOp::Text { font: r.below(12) as u8, size: *r.pick(&[8.0, 10.0, 12.0, 14.5, 24.0]), x, y, text: gen_text(r, o.tricky_text) },
                 3 => DocOp::Rect {
@@ -243,11 +264,20 @@ pub fn gen_program(r: &mut Rng, o: &GenProgOpts) -> Program {
                 },
                 _ => {
                     img_n += 1;
+                    let (iw, ih, ig) = match last_img {
+                        Some(t) if r.chance(1, 2) => t, // same geometry as an earlier image, other samples
+                        _ => (
+                            if o.big_images && r.chance(1, 2) { 60 + r.below(100) as u32 } else { 1 + r.below(12) as u32 },
+                            if o.big_images && r.chance(1, 2) { 60 + r.below(100) as u32 } else { 1 + r.below(12) as u32 },
+                            r.chance(1, 2),
+                        ),
+                    };
+                    last_img = Some((iw, ih, ig));
                     DocOp::Image {
                         name: if o.tricky_names && r.chance(1, 2) { format!("{}{}", TRICKY_NAMES[r.usize_below(TRICKY_NAMES.len())], img_n) } else { format!("Im{}", img_n) },
-                        w: if o.big_images && r.chance(1, 2) { 60 + r.below(100) as u32 } else { 1 + r.below(12) as u32 },
-                        h: if o.big_images && r.chance(1, 2) { 60 + r.below(100) as u32 } else { 1 + r.below(12) as u32 },
-                        gray: r.chance(1, 2),
+                        w: iw,
+                        h: ih,
+                        gray: ig,
                         seed: r.next_u64(),
                         x,
                         y,
@@ -382,6 +412,14 @@ pub fn build_document(p: &Program) -> Result<Document, String> {
                         }
                         if *close {
                             g.close_path();
+                        }
+                        g.stroke();
+                    }
+                    DocOp::StrokeOnly { pts } => {
+                        let g = pg.graphics();
+                        g.move_to(pts[0][0], pts[0][1]);
+                        for p in &pts[1..] {
+                            g.line_to(p[0], p[1]);
                         }
                         g.stroke();
                     }
